@@ -330,8 +330,8 @@ func GenRecSystem(t *rapid.T) (*Grammar, map[string]bool) {
 		}
 		g.Prods = append(g.Prods, &Prod{Expr: e, PosStyle: 3, TagStyle: rapid.IntRange(0, 1).Draw(t, "tagstyle")})
 	}
-	for _, p := range g.Prods {
-		assignFields(t, p, p.Expr)
+	for i, p := range g.Prods {
+		assignFields(t, p, p.Expr, i)
 	}
 	return g, used
 }
